@@ -373,31 +373,20 @@ func checkC13(c *core.Ctx) {
 	// ---- R3
 	bitParam := -1
 	if f := p.FuncDecl(pkg, "readEnumOptionValue"); f != nil {
-		okBits := 0
-		ast.Inspect(f.Body, func(m ast.Node) bool {
-			if call, ok := m.(*ast.CallExpr); ok && len(call.Args) == 3 {
-				fn := wire.Canon(call.Fun)
-				if fn == "strconv.ParseUint" || fn == "strconv.ParseInt" {
-					// the bit size is the function's own integer parameter (fed from
-					// decodeIntegerType by readEnum, below), not a constant
-					if id, ok := ast.Unparen(call.Args[2]).(*ast.Ident); ok {
-						if v, ok := info.ObjectOf(id).(*types.Var); ok {
-							for i, pi := 0, 0; i < len(f.Type.Params.List); i++ {
-								for _, nm := range f.Type.Params.List[i].Names {
-									if info.ObjectOf(nm) == types.Object(v) {
-										okBits++
-										bitParam = pi
-									}
-									pi++
-								}
-							}
-						}
-					}
+		// the parameter that carries the enum's bit size: it reaches the bitSize
+		// argument of a strconv parse, here or in a callee (the parses themselves
+		// are R8's obligations)
+		roles, _, _ := bitSizeRoles(p)
+		pi := 0
+		for _, fl := range f.Type.Params.List {
+			for _, nm := range fl.Names {
+				if roles[info.Defs[nm]] {
+					bitParam = pi
 				}
+				pi++
 			}
-			return true
-		})
-		c.Check("R3", "enum option literals are range-checked against the enum's width", p.Pos(f.Pos()), okBits == 2, fmt.Sprintf("%d of 2 ParseInt/ParseUint calls take the enum's bit size as their bitSize argument", okBits))
+		}
+		c.Check("R3", "enum option literals are range-checked against the enum's width", p.Pos(f.Pos()), bitParam >= 0, "no parameter of readEnumOptionValue reaches the bitSize argument of a ParseInt/ParseUint: option literals are parsed at a fixed width")
 	} else {
 		c.Undecide("readEnumOptionValue not found")
 	}
@@ -1535,6 +1524,43 @@ func usageLeavesNoFieldOut(c *core.Ctx, p *load.Prog, validate *ast.FuncDecl) {
 func bitSizeReachesParses(c *core.Ctx, p *load.Prog) {
 	pkg := p.Bebop()
 	info := pkg.TypesInfo
+	role, decls, isParse := bitSizeRoles(p)
+	n := 0
+	for _, fd := range decls {
+		var sizeParam *types.Var
+		for _, fl := range fd.Type.Params.List {
+			for _, nm := range fl.Names {
+				if v, ok := info.Defs[nm].(*types.Var); ok && role[v] {
+					sizeParam = v
+				}
+			}
+		}
+		if sizeParam == nil {
+			continue
+		}
+		ast.Inspect(fd.Body, func(nd ast.Node) bool {
+			call, ok := nd.(*ast.CallExpr)
+			if !ok || !isParse(call) {
+				return true
+			}
+			n++
+			id, isId := ast.Unparen(call.Args[2]).(*ast.Ident)
+			okSize := isId && info.ObjectOf(id) == types.Object(sizeParam)
+			c.Check("R8", fmt.Sprintf("%s parses an enum value at the enum's bit size (%s)", fd.Name.Name, wire.Canon(call.Fun)), p.Pos(call.Pos()), okSize,
+				fmt.Sprintf("the function is handed the enum's bit size (%s) but parses the literal with bitSize %s: a value outside the range of the enum's base type is accepted, and the generated constant does not compile or wraps", sizeParam.Name(), wire.Canon(call.Args[2])))
+			return true
+		})
+	}
+	c.Count("enum_value_parses_with_bit_size", n)
+	c.Floor("enum_value_parses_with_bit_size", 1)
+}
+
+// bitSizeRoles: the parameters of the enum-value path that carry the enum's
+// bit size (they flow, in their function or in a callee, into the bitSize
+// argument of strconv.ParseInt/ParseUint, or select the evaluator's width).
+func bitSizeRoles(p *load.Prog) (map[types.Object]bool, []*ast.FuncDecl, func(*ast.CallExpr) bool) {
+	pkg := p.Bebop()
+	info := pkg.TypesInfo
 	isParse := func(call *ast.CallExpr) bool {
 		cal := load.Callee(info, call)
 		return cal != nil && cal.Pkg() != nil && cal.Pkg().Path() == "strconv" && (cal.Name() == "ParseInt" || cal.Name() == "ParseUint") && len(call.Args) == 3
@@ -1631,37 +1657,7 @@ func bitSizeReachesParses(c *core.Ctx, p *load.Prog) {
 			})
 		}
 	}
-	n := 0
-	for _, fd := range decls {
-		var sizeParam *types.Var
-		for _, fl := range fd.Type.Params.List {
-			for _, nm := range fl.Names {
-				if v, ok := info.Defs[nm].(*types.Var); ok && role[v] {
-					sizeParam = v
-				}
-			}
-		}
-		if sizeParam == nil {
-			continue
-		}
-		ast.Inspect(fd.Body, func(nd ast.Node) bool {
-			if _, isLit := nd.(*ast.FuncLit); isLit {
-				return true
-			}
-			call, ok := nd.(*ast.CallExpr)
-			if !ok || !isParse(call) {
-				return true
-			}
-			n++
-			id, isId := ast.Unparen(call.Args[2]).(*ast.Ident)
-			okSize := isId && info.ObjectOf(id) == types.Object(sizeParam)
-			c.Check("R8", fmt.Sprintf("%s parses an enum value at the enum's bit size (%s)", fd.Name.Name, wire.Canon(call.Fun)), p.Pos(call.Pos()), okSize,
-				fmt.Sprintf("the function is handed the enum's bit size (%s) but parses the literal with bitSize %s: a value outside the range of the enum's base type is accepted, and the generated constant does not compile or wraps", sizeParam.Name(), wire.Canon(call.Args[2])))
-			return true
-		})
-	}
-	c.Count("enum_value_parses_with_bit_size", n)
-	c.Floor("enum_value_parses_with_bit_size", 1)
+	return role, decls, isParse
 }
 
 // constLiteralsFit: R9. A numeric const literal that does not fit its type is
